@@ -116,12 +116,12 @@ ONEBIN = ("pburg", "pyule", "parma", "pminvar")
 @st.composite
 def ctone_case(draw):
     row = draw(st.sampled_from(TONE_ROWS))
-    N = draw(st.integers(16, 64))
+    N = draw(gen.lengths(16, 64, big=(513, 700)))
     nfft = draw(st.sampled_from([N, N + 1, 2 * N, 2 * N + 1, 3 * N, 1 << int(math.ceil(math.log2(N)))]))
     if row == "Periodogram":
         p = {"window": draw(st.sampled_from(TONE_WINDOWS))}
     elif row == "pcorrelogram":
-        p = {"lag": draw(st.integers(2, min(N - 1, (nfft - 1) // 2))), "window": draw(st.sampled_from(TONE_WINDOWS))}
+        p = {"lag": draw(st.integers(2, min(N - 1, (nfft - 1) // 2, 40))), "window": draw(st.sampled_from(TONE_WINDOWS))}
     elif row in ("pmusic", "pev"):
         IP = draw(st.integers(2, min(N // 3, 10)))
         p = {"IP": IP, "NSIG": 1}
